@@ -141,9 +141,11 @@ type op struct {
 	Cmd  *model.CmdType // pre-built command for inbound messages
 }
 
+var requestSerial atomic.Uint64
+
 var inboundKinds = []string{"read", "read-discovery", "read-usecase", "notify", "reply", "write", "write-approval", "subscribe", "unsubscribe", "bind", "unbind", "result", "entity-removed", "entity-added"}
 var localKinds = []string{"setdata", "updatedata", "datacopy-encode", "usecase-add", "usecase-remove", "usecase-avail", "add-entity", "remove-entity", "getoradd", "addfunction",
-	"subscribe-remote", "bind-remote", "request-remote", "heartbeat-start", "heartbeat-stop", "heartbeat-running", "event-subscribe", "event-unsubscribe", "lookup-notify",
+	"subscribe-remote", "bind-remote", "request-remote", "request-burst", "heartbeat-start", "heartbeat-stop", "heartbeat-running", "event-subscribe", "event-unsubscribe", "lookup-notify",
 	"describe", "registry-read", "remote-tree-read", "reconnect"}
 
 func genList(t *rapid.T, f *gen.Func, label string) *model.CmdType {
@@ -278,6 +280,15 @@ func (e *env) local(o op, peers []*world.Peer) {
 	case "request-remote":
 		if rf := p.Feature([]uint{1}, 3); rf != nil {
 			_, _ = e.cli.RequestRemoteData(mf.Fn, nil, nil, rf)
+		}
+	case "request-burst":
+		// more different unanswered requests than the sender remembers (20): the oldest are evicted
+		// while responses come in on the connection
+		if rf := p.Feature([]uint{1}, 3); rf != nil {
+			for i := 0; i < 24; i++ {
+				id := model.MeasurementIdType(requestSerial.Add(1))
+				_, _ = e.cli.RequestRemoteData(mf.Fn, &model.MeasurementListDataSelectorsType{MeasurementId: &id}, nil, rf)
+			}
 		}
 	case "heartbeat-start":
 		_ = e.ents[0].HeartbeatManager().StartHeartbeat()
